@@ -345,6 +345,76 @@ R.contract(
     },
 )
 
+
+# ------------------------------------------------------------------------------------------------- consumers of the label: what a negative / positive label makes the checks demand
+CKS = "schemathesis.specs.openapi.checks:"
+META = "schemathesis.generation.meta:"
+R.opaque_classes.update({"OASchema": "schemathesis.specs.openapi.schemas:BaseOpenAPISchema"})
+R.opaque_super["OASchema"] = ("BaseOpenAPISchema", "schemathesis.specs.openapi.schemas:BaseOpenAPISchema", "BaseSchema")
+R.uf("only_extra", ["ObjRef"], "bool")
+R.contract(CKS + "has_only_additional_properties_in_non_body_parameters", args={"case": Opq("Any")}, returns=Bool, pure=True, trusted=True,
+           note="whether the only invalid thing about the case is extra query / header / cookie members (apps commonly ignore those)")
+R.alias("only_extra_members", CKS + "has_only_additional_properties_in_non_body_parameters")
+
+
+def _expand_codes(it, env):
+    """expand_status_codes for the concrete default lists: the set of codes (C04 stand-in `expand_status_code_full_domain` for the expansion itself)."""
+    out = set()
+    for code in it.iterate_all(env["status_codes"]):
+        digits = [range(10) if ch in "xX" else [int(ch)] for ch in str(code)]
+        for a in digits[0]:
+            for b in digits[1]:
+                for c in digits[2]:
+                    out.add(a * 100 + b * 10 + c)
+    return out
+
+
+R.contract("schemathesis.specs.openapi.utils:expand_status_codes", args={"status_codes": Opq("Any")}, returns=_expand_codes, trusted=True, note="C04: expand_status_code (complete enumeration)")
+PhaseData = OneOf(Obj(META + "CoveragePhaseData", description=Choice("Unspecified HTTP method: PUT", "Missing `h` at header", "Maximum value"), location=NoneT, parameter=NoneT, parameter_location=NoneT),
+                  Obj("spec:OtherPhaseData"))
+LabelledCase = Obj("schemathesis.generation.case:Case",
+                   operation=Obj("schemathesis.schemas:APIOperation", label=Str, schema=OneOf(Opq("OASchema"), Opq("OtherSchema"))),
+                   meta=OneOf(NoneT, Obj(META + "CaseMetadata", generation=Obj(META + "GenerationInfo", time=Real, mode=EnumOf(GM)), components=Const({}), phase=Obj(META + "PhaseInfo", name=Opq("PhaseName"), data=PhaseData))))
+CheckCtx = Obj("spec:CheckCtx", config=Const({}))
+R.spec_funcs["is_oas_case"] = lambda it, case: getattr(case.fields["operation"].fields["schema"], "sort", None) == "OASchema"
+R.exception_classes.update({"AcceptedNegativeData": "schemathesis.openapi.checks:AcceptedNegativeData", "RejectedPositiveData": "schemathesis.openapi.checks:RejectedPositiveData"})
+APPLIES = "(is_oas_case(case) and case.meta is not None and not (is_instance(case.meta.phase.data, 'CoveragePhaseData') and case.meta.phase.data.description.startswith('Unspecified HTTP method')))"
+NEG_ALLOWED = "(response.status_code in (400, 401, 403, 404, 406, 422, 428) or 500 <= response.status_code <= 599)"
+POS_ALLOWED = "(200 <= response.status_code <= 299 or response.status_code in (401, 403, 404))"
+RespS = Obj("schemathesis.core.transport:Response", status_code=IntRange(100, 599))
+R.contract(
+    CKS + "negative_data_rejection",
+    prop="C03",
+    args={"ctx": CheckCtx, "response": RespS, "case": LabelledCase},
+    raises=["AcceptedNegativeData"],
+    ensures={
+        # the label is what decides: a case labelled NEGATIVE that the API accepted (status outside the allowed list) must be reported ...
+        "accepted_negative_case_never_passes": "not (" + APPLIES + " and case.meta.generation.mode.name == 'NEGATIVE' and not " + NEG_ALLOWED + " and not only_extra_members(case))",
+        "not_applicable_returns_true": "implies(not " + APPLIES + ", result is True)",
+    },
+    raises_ensures={
+        # ... and nothing else is: never a POSITIVE-labelled case, never an allowed status
+        "reported_only_for_an_accepted_negative_case": "raised == 'AcceptedNegativeData' and " + APPLIES + " and case.meta.generation.mode.name == 'NEGATIVE' and not " + NEG_ALLOWED + " and not only_extra_members(case)",
+    },
+    bounded_note="default allowed status lists",
+    replayable=False,
+)
+R.contract(
+    CKS + "positive_data_acceptance",
+    prop="C03",
+    args={"ctx": CheckCtx, "response": RespS, "case": LabelledCase},
+    raises=["RejectedPositiveData"],
+    ensures={
+        "rejected_positive_case_never_passes": "not (" + APPLIES + " and case.meta.generation.mode.name == 'POSITIVE' and not " + POS_ALLOWED + ")",
+        "not_applicable_returns_true": "implies(not " + APPLIES + ", result is True)",
+    },
+    raises_ensures={
+        "reported_only_for_a_rejected_positive_case": "raised == 'RejectedPositiveData' and " + APPLIES + " and case.meta.generation.mode.name == 'POSITIVE' and not " + POS_ALLOWED,
+    },
+    bounded_note="default allowed status lists",
+    replayable=False,
+)
+
 LEVEL_TEXT = ("Deductive: the numeric / length / item-count boundary generators are verified against 'conforms to the declared schema' for ALL integer bounds "
               "(multipleOf clauses for a finite set of divisors, labelled bounded); the case-level label rule is a postcondition on every case yielded by _iter_coverage_cases.")
 LEVEL_NOTE = "Trusted: E1 (values generated from a schema are valid for it), floats as reals, pyvc semantics (E9)."
